@@ -16,7 +16,7 @@ if TYPE_CHECKING:
     from .common import LexerConf
     from .parsers.lalr_parser_state import ParserState
 
-from .utils import classify, get_regexp_width, Serialize, logger, TextSlice, TextOrSlice
+from .utils import classify, get_regexp_width, Serialize, logger, TextSlice, TextOrSlice, sre_parse, sre_constants
 from .exceptions import UnexpectedCharacters, ConfigurationError, LexError, UnexpectedToken
 from .grammar import TOKEN_DEFAULT_PRIORITY
 
@@ -446,15 +446,54 @@ class Scanner:
                 best = m
         return best.start() if best is not None else None
 
-def _regexp_has_newline(r: str):
-    r"""Expressions that may indicate newlines in a regexp:
-        - newlines (\n)
-        - escaped newline (\\n)
-        - anything but ([^...])
-        - any-char (.) when the flag (?s) exists
-        - spaces (\s)
+def _regexp_has_newline(r: str, flags: int = 0) -> bool:
+    """Whether a match of the regexp may contain a newline.
+
+    Decided on the parsed regexp, so that every spelling counts (\\n, \\s, \\W, \\D, [^...], ranges,
+    escapes, any-char under the (?s) flag, ...). When in doubt, the answer is True.
     """
-    return '\n' in r or '\\n' in r or '\\s' in r or '[^' in r or ('(?s' in r and '.' in r)
+    try:
+        parsed = sre_parse.parse(r, flags)
+    except sre_constants.error:
+        # Syntax that only the `regex` module understands
+        return True
+    return _sre_may_match_newline(parsed, parsed.state.flags)
+
+def _sre_may_match_newline(items, flags: int) -> bool:
+    C = sre_constants
+    NL = ord('\n')
+    for op, av in items:
+        if op is C.LITERAL:
+            hit = av == NL
+        elif op is C.NOT_LITERAL:
+            hit = av != NL
+        elif op is C.ANY:
+            hit = bool(flags & C.SRE_FLAG_DOTALL)
+        elif op is C.CATEGORY:
+            hit = av in (C.CATEGORY_SPACE, C.CATEGORY_NOT_DIGIT, C.CATEGORY_NOT_WORD, C.CATEGORY_LINEBREAK)
+        elif op is C.RANGE:
+            hit = av[0] <= NL <= av[1]
+        elif op is C.IN:
+            negate = any(o is C.NEGATE for o, _ in av)
+            hit = negate != _sre_may_match_newline([x for x in av if x[0] is not C.NEGATE], flags)
+        elif op is C.BRANCH:
+            hit = any(_sre_may_match_newline(x, flags) for x in av[1])
+        elif op is C.SUBPATTERN:
+            hit = _sre_may_match_newline(av[3], (flags | av[1]) & ~av[2])
+        elif op in (C.MAX_REPEAT, C.MIN_REPEAT, getattr(C, 'POSSESSIVE_REPEAT', None)):
+            hit = _sre_may_match_newline(av[2], flags)
+        elif op is getattr(C, 'ATOMIC_GROUP', None):
+            hit = _sre_may_match_newline(av, flags)
+        elif op is C.GROUPREF_EXISTS:
+            hit = any(_sre_may_match_newline(x, flags) for x in av[1:] if x is not None)
+        elif op in (C.AT, C.ASSERT, C.ASSERT_NOT, C.GROUPREF):
+            # Consumes no new characters
+            hit = False
+        else:
+            hit = True
+        if hit:
+            return True
+    return False
 
 
 class LexerState:
@@ -627,7 +666,7 @@ class BasicLexer(AbstractBasicLexer):
                 raise LexError("interegular must be installed for strict mode. Use `pip install 'lark[interegular]'`.")
 
         # Init
-        self.newline_types = frozenset(t.name for t in terminals if _regexp_has_newline(t.pattern.to_regexp()))
+        self.newline_types = frozenset(t.name for t in terminals if _regexp_has_newline(t.pattern.to_regexp(), conf.g_regex_flags))
         self.ignore_types = frozenset(conf.ignore)
 
         terminals.sort(key=lambda x: (-x.priority, -x.pattern.max_width, -len(x.pattern.value), x.name))
